@@ -4,6 +4,7 @@ import (
 	"bytes"
 	"fmt"
 	"math/big"
+	"sort"
 	"time"
 
 	"github.com/fxamacker/cbor/v2"
@@ -251,6 +252,56 @@ func c08Buckets(r *Run, t *tape.Tape, sp Spelling, maxExtra int) {
 	} else {
 		r.Outcome("unprotected-refused")
 	}
+	// one integer label under two Go integer types in one bucket (h[4] = kid
+	// next to a computed h[uint16(l)]): two entries of the Go map, one CBOR
+	// label - nothing deterministic can be emitted for that
+	if broken == "" && t.Bool(1, 6, "c08.twospellings") {
+		which := t.Choose(2, "c08.twospellings.bucket")
+		src := map[any]any(h.Protected)
+		if which == 1 {
+			src = map[any]any(h.Unprotected)
+		}
+		var ints []int64
+		for k := range src {
+			if v, ok := asInt64(k); ok && v >= 0 && v < 120 {
+				ints = append(ints, v)
+			}
+		}
+		sort.Slice(ints, func(a, b int) bool { return ints[a] < ints[b] })
+		if len(ints) > 0 {
+			lbl := ints[t.Choose(len(ints), "c08.twospellings.label")]
+			cp := map[any]any{}
+			var val any
+			for k, v := range src {
+				if kv, ok := asInt64(k); ok && kv == lbl {
+					val = v
+					continue
+				}
+				cp[k] = v
+			}
+			types := []func(int64) any{
+				func(v int64) any { return int(v) }, func(v int64) any { return int8(v) }, func(v int64) any { return int16(v) },
+				func(v int64) any { return int32(v) }, func(v int64) any { return int64(v) }, func(v int64) any { return uint8(v) },
+				func(v int64) any { return uint16(v) }, func(v int64) any { return uint32(v) }, func(v int64) any { return uint(v) }, func(v int64) any { return uint64(v) },
+			}
+			i := t.Choose(len(types), "c08.twospellings.a")
+			j := (i + 1 + t.Choose(len(types)-1, "c08.twospellings.b")) % len(types)
+			cp[types[i](lbl)], cp[types[j](lbl)] = val, val
+			var b []byte
+			var err error
+			if which == 0 {
+				r.Lib(func() { b, err = cose.ProtectedHeader(cp).MarshalCBOR() })
+			} else {
+				r.Lib(func() { b, err = cose.UnprotectedHeader(cp).MarshalCBOR() })
+			}
+			r.Check()
+			if err == nil {
+				r.Fail("label-under-two-go-types-encoded", "a header map holding label %d under the Go types %T and %T was encoded: %s", lbl, types[i](lbl), types[j](lbl), hexShort(b))
+				return
+			}
+			r.Probe("label-under-two-go-types-refused")
+		}
+	}
 	// empty-but-not-nil raw buckets (what `append(cbor.RawMessage{}, src...)`
 	// gives for a message built in memory, or a store that returns empty
 	// blobs): "no retained raw bytes", exactly like nil
@@ -290,6 +341,7 @@ func c08Message(r *Run, t *tape.Tape, sp Spelling, maxExtra int, ent *Entropy) {
 	var spies []*SpySigner
 	r.Op("ISSUE", "%s", spec)
 	r.Outcome("message/" + spec.Kind.String() + "/" + sizeClass(len(spec.Layer.Prot)))
+	r.LeaveAlgToLibrary = t.Bool(1, 6, "c08.algtolib")
 	is, err := r.LibIssue(spec, sp, t.Bool(1, 2, "c08.typed"), ent, func(i int, k *KeyPair, inner cose.Signer) cose.Signer {
 		s := &SpySigner{Inner: inner, Alg: inner.Algorithm()}
 		spies = append(spies, s)
